@@ -5,6 +5,7 @@ KeyOf, ValWF) in Spec.lean, the model of the Go code in Model.lean.
 -/
 import YouVerif.C05.Proofs
 import YouVerif.C05.ProofsPenalty
+import YouVerif.C05.ProofsPool
 
 namespace YouVerif.C05
 
@@ -215,6 +216,22 @@ theorem one_block_per_round (cfg : Cfg) (chain : Chain) (verify : Key → Bytes 
   have r2 := a2.round
   simp only [blockEnv] at r1 r2
   omega
+
+/-- The pool loses nothing.  Start from an empty pool and let Evidence events arrive in ANY interleaving with the
+builder's lock region (`sealBegin … sealEnd`, any number of seals, each classifying its snapshot with the real
+`processEvidences` on the state of the block it builds): every evidence that ever arrived is, at the end, still
+pooled (or waiting on the mutex), or was written into the SlashData of a sealed block, or was judged `dropped` by a
+seal (malformed, forged, expired, signer already convicted) — never lost by the pool mechanics. -/
+theorem pool_loses_nothing (env : Env σ) (st : St) (evts : List (PoolEvt (Ev σ))) (e : Ev σ)
+    (harr : PoolEvt.arrive e ∈ evts) :
+    let r := poolRun (sealPart env st) { pool := [], waiting := [], snap := none, confirmed := [], discarded := [] } evts
+    e ∈ r.pool ∨ e ∈ r.waiting ∨ e ∈ r.confirmed ∨ e ∈ r.discarded := by
+  intro r
+  have hpart : ∀ (l : List (Ev σ)) x, x ∈ l → x ∈ (sealPart env st l).1 ∨ x ∈ (sealPart env st l).2.1 ∨ x ∈ (sealPart env st l).2.2 := by
+    intro l x hx
+    simp only [sealPart]
+    exact selectBy_covers l _ (processAll_length env l st []) x hx
+  exact (poolRun_keeps (sealPart env st) hpart evts _ (by intro sn h; simp at h)).2 e harr
 
 /-! ## 4. The penalty -/
 
